@@ -187,7 +187,7 @@ func cmdCheck(args []string) int {
 	}
 	genS := time.Since(tGen).Seconds()
 
-	timeout := 10 * time.Second
+	timeout := 20 * time.Second
 	if *tier == "thorough" {
 		// as deep as this machinery goes: every obligation re-decided from scratch (no cache)
 		// with twelve times the solver budget
@@ -208,7 +208,7 @@ func cmdCheck(args []string) int {
 	}
 	if len(retry) > 0 && len(retry) <= 40 {
 		cfg2 := *cfg
-		cfg2.Timeout = 15 * timeout
+		cfg2.Timeout = 2 * timeout
 		if cfg2.Timeout > 180*time.Second {
 			cfg2.Timeout = 180 * time.Second
 		}
